@@ -559,11 +559,10 @@ class InboundStream:
             if start_pos is None:
                 ordered = not (chunk.flags & SCTP_DATA_UNORDERED)
                 if not (chunk.flags & SCTP_DATA_FIRST_FRAG):
-                    if ordered:
-                        break
-                    else:
-                        pos += 1
-                        continue
+                    # the first fragment of this message is missing: it cannot be
+                    # delivered yet, but it must not hold back later chunks either
+                    pos += 1
+                    continue
                 if ordered and uint16_gt(chunk.stream_seq, self.sequence_number):
                     # not deliverable yet, but it must not hold back later chunks
                     # of the stream (a peer may send a bogus sequence number)
